@@ -60,13 +60,15 @@ class StateTraj:  # noqa: WPS214
         # get number of states
         self._states = mh.utils.unique(self._trajs)
 
-        # enforce true copy of trajs
+        # enforce true copy of trajs, using a common integer type for all
+        # trajectories (numba typed lists need homogeneous arrays)
+        dtype = np.result_type(*[traj.dtype for traj in self._trajs])
         if np.array_equal(self._states, np.arange(self.nstates)):
-            self._trajs = [traj.copy() for traj in self._trajs]
+            self._trajs = [traj.astype(dtype) for traj in self._trajs]
         # shift to indices
         elif np.array_equal(self._states, np.arange(1, self.nstates + 1)):
             self._states = np.arange(1, self.nstates + 1)
-            self._trajs = [traj - 1 for traj in self._trajs]
+            self._trajs = [(traj - 1).astype(dtype) for traj in self._trajs]
         else:  # not np.array_equal(self._states, np.arange(self.nstates)):
             self._trajs, self._states = mh.utils.rename_by_index(
                 self._trajs,
